@@ -90,6 +90,10 @@ type Entropy struct {
 	Chunks [][]byte // every chunk handed out
 	FailAt int      // 1-based index of the Read call that fails (0 = never)
 	Failed bool
+	// Budget > 0: the source delivers exactly Budget octets in total and fails in the middle of the Read that would exceed
+	// it (returning the octets it still had together with the error - a short read)
+	Budget    int
+	delivered int
 }
 
 var ErrInjected = errors.New("probe: injected entropy failure")
@@ -102,6 +106,19 @@ func (e *Entropy) Read(p []byte) (int, error) {
 		e.Failed = true
 		return 0, ErrInjected
 	}
+	if e.Budget > 0 && e.delivered+len(p) > e.Budget {
+		n := e.Budget - e.delivered
+		if n < 0 {
+			n = 0
+		}
+		for i := 0; i < n; i++ {
+			p[i] = 0x3d
+		}
+		e.delivered += n
+		e.Failed = true
+		return n, ErrInjected
+	}
+	e.delivered += len(p)
 	for i := range p {
 		if e.pos < len(e.stream) {
 			p[i] = e.stream[e.pos]
@@ -120,9 +137,18 @@ var entropyMu sync.Mutex
 // WithEntropy runs f with crypto/rand.Reader replaced by a stream that starts with the given
 // octets (continued pseudo-randomly, keyed by them) and fails at Read number failAt (0 = never).
 func WithEntropy(stream []byte, failAt int, f func(e *Entropy)) {
+	withEntropy(stream, failAt, 0, f)
+}
+
+// WithEntropyBudget is WithEntropy with a source that runs dry after budget octets (failing inside a Read).
+func WithEntropyBudget(stream []byte, budget int, f func(e *Entropy)) {
+	withEntropy(stream, 0, budget, f)
+}
+
+func withEntropy(stream []byte, failAt, budget int, f func(e *Entropy)) {
 	entropyMu.Lock()
 	defer entropyMu.Unlock()
-	e := &Entropy{stream: stream, FailAt: failAt, lcg: 0x9e3779b97f4a7c15}
+	e := &Entropy{stream: stream, FailAt: failAt, Budget: budget, lcg: 0x9e3779b97f4a7c15}
 	for _, b := range stream {
 		e.lcg = e.lcg*131 + uint64(b) + 1
 	}
